@@ -64,6 +64,29 @@ def make_renaming(prog, rnd):
     for m in markets:
         if m not in rho:
             rho[m] = pm.pop()
+    # codes that other sectors refer to by name (the issuer of an asset, the receiver of taxes) get, in two thirds of
+    # the renamings, a new code that contains - or is contained in - the new code of another sector
+    referred = []
+    for st in prog:
+        if st['op'] == 'Sector':
+            a = st.get('args') or {}
+            for key in ('issuer_short_code', 'taxes_paid_to'):
+                if a.get(key) in rho and a[key] not in referred:
+                    referred.append(a[key])
+    for r in referred:
+        others = [x for x in sectors if x != r and x not in referred]
+        mode = rnd.choice(['longer', 'shorter', 'plain'])
+        if not others or mode == 'plain':
+            continue
+        o = rnd.choice(others)
+        if mode == 'longer':
+            cand = rho[o] + rnd.choice(['GOV', '_2', 'X'])
+            if cand not in rho.values():
+                rho[r] = cand
+        else:
+            cand = rho[r] + rnd.choice(['B', '_1', 'x'])
+            if cand not in rho.values():
+                rho[o] = cand
     return rho
 
 
@@ -432,7 +455,11 @@ def run(rep):
     chosen = modelcheck.sample_behaviours(good, bps, 40 if rep.tier == 'quick' else 900, rep.seed)
     # the token-wise renamer needs original codes without '_' (the renamed twins SIMR / SIMEXR are themselves the
     # result of a renaming and are covered by the TLC run and by the other model checks)
+    # models put together by a bundled builder (blueprint field `book`) cannot be re-declared under other codes or inside
+    # a larger model by the driver; their economies are covered through the twin blueprints SIM / SIMEX / PC / REG2
     def plain(bp):
+        if bp.get('book'):
+            return False
         return all('_' not in d['code'] and '_' not in d['good'] and '_' not in d['lab'] for d in bp['sectors'])
     chosen = [b for b in chosen if plain(bps[b['name']])]
     jobs = [(bps[b['name']], b['decl'], rep.seed) for b in chosen]
